@@ -53,16 +53,16 @@ type varNames map[engine.Variable]int
 
 // nodeBudget bounds the size of a term read back (cyclic terms created by
 // unification without occurs check would otherwise unfold for ever).
-var nodeBudget int
-
 const maxNodes = 4000
 
 func fromTerm(t engine.Term, env *engine.Env, names varNames, depth int) *T {
-	if depth == 0 {
-		nodeBudget = maxNodes
-	}
-	nodeBudget--
-	if depth > 500 || nodeBudget < 0 {
+	budget := maxNodes
+	return fromTermB(t, env, names, depth, &budget)
+}
+
+func fromTermB(t engine.Term, env *engine.Env, names varNames, depth int, nodeBudget *int) *T {
+	*nodeBudget--
+	if depth > 500 || *nodeBudget < 0 {
 		return &T{K: 'o', S: "<huge>"}
 	}
 	switch x := env.Resolve(t).(type) {
@@ -82,7 +82,7 @@ func fromTerm(t engine.Term, env *engine.Env, names varNames, depth int) *T {
 	case engine.Compound:
 		r := &T{K: 'c', S: x.Functor().String()}
 		for i := 0; i < x.Arity(); i++ {
-			r.Args = append(r.Args, fromTerm(x.Arg(i), env, names, depth+1))
+			r.Args = append(r.Args, fromTermB(x.Arg(i), env, names, depth+1, nodeBudget))
 		}
 		return r
 	default:
